@@ -124,7 +124,10 @@ def jobs(tier):
                          ("BAsFAs", dict(ulab=1, n2_nm=0, n3_fn=0, n3_fnalt=0, n1_aop=0, n1_aggop=0, n4_aop=0, n4_aggop=0))):
             pins.setdefault("ulab", 2)
             out += vv(D, sk, VV_QUICK, ulist=2, **pins)
-        return out
+        # two jobs of the BAsAs family with matchers on both sides were still running after 42 min (the other 649 jobs took
+        # 42 min together on a shared machine): not registered
+        slow = ("BAsAs-nm1-u21-n0arith0-n0card1-n0op0-n1aggop0-n1aop0-n3aggop0-n3aop0", "BAsAs-nm1-u21-n0arith0-n0card2-n0op0-n1aggop0-n1aop0-n3aggop0-n3aop0")
+        return [j for j in out if j["name"] not in slow]
     return out
 
 
